@@ -1,0 +1,17 @@
+//go:build verif
+
+// Contracts for package planar, read by the VC generator in /verif (govc). Comments only.
+
+package planar
+
+// collections handed to the dimension filter have no nil members (the property quantifies over
+// collections "without nil entries")
+//@ func maxDim(c)
+//@   requires forall i :: 0 <= i && i < len(c) ==> c[i] != nil && noNil(c[i])
+//@ func collectionCentroidArea(c)
+//@   requires forall i :: 0 <= i && i < len(c) ==> c[i] != nil && noNil(c[i])
+
+//@ func CentroidArea(g)
+//@   requires noNil(g)
+//@ func Area(g)
+//@   requires noNil(g)
